@@ -2963,6 +2963,11 @@ function visitors.FuncDef(context, node, opts)
   local type = node.attr.ftype
   context:push_forked_state{infuncdef = node, inpolydef = polysymbol}
   local varsym = visitor_FuncDef_variable(context, declscope, varnode)
+  if not declscope and (varnode.attr.const or varnode.attr.comptime) and
+     not (varsym and (varsym.forwarddecl or varsym.funcdeclared)) then
+    -- `function name() ... end` assigns the function to an existing variable or field
+    varnode:raisef("cannot assign a constant variable")
+  end
   local attr, symbol
   if varsym then -- symbol may be nil in case of array/dot index
     symbol = varsym
